@@ -121,7 +121,8 @@ def replay_cases(prop, cases, timeout=600):
     with open(batch, "w") as f:
         json.dump(cases, f)
     env = dict(os.environ)
-    env["PYTHONPATH"] = ROOT + os.pathsep + env.get("PYTHONPATH", "")
+    # the replay imports the package of the tree under check (REPO is /repo unless VERIF_REPO points elsewhere)
+    env["PYTHONPATH"] = REPO + os.pathsep + ROOT + os.pathsep + env.get("PYTHONPATH", "")
     env["VERIF_REPLAY"] = "1"
     env.pop("PYTHONHASHSEED", None)
     try:
